@@ -315,13 +315,19 @@ def run_parallel(exe, cases, jobs, hang_secs=20, env_extra=None):
     if not cases:
         return []
     jobs = max(1, min(jobs, len(cases) // 4 or 1))
-    chunks = [cases[i::jobs] for i in range(jobs)]
+    # block-cyclic distribution: blocks of BLOCK CONSECUTIVE cases are dealt to the processes in turn, so that cases the generator
+    # placed next to each other (an object built right after a related one: state shared between objects of a process, seeded
+    # change c13e) are run next to each other by ONE process, while heavy cases appended last still spread over all processes
+    BLOCK = 8
+    owner = [(i // BLOCK) % jobs for i in range(len(cases))]
+    index = [[i for i in range(len(cases)) if owner[i] == j] for j in range(jobs)]
+    chunks = [[cases[i] for i in idx] for idx in index]
     with cf.ThreadPoolExecutor(max_workers=jobs) as ex:
         parts = list(ex.map(lambda c: run_stream(exe, c, hang_secs, env_extra), chunks))
     outs = [None] * len(cases)
-    for j, part in enumerate(parts):
-        for k, o in enumerate(part):
-            outs[j + k * jobs] = o
+    for idx, part in zip(index, parts):
+        for i, o in zip(idx, part):
+            outs[i] = o
     return outs
 
 
